@@ -60,7 +60,7 @@ inductive Val where
   deriving DecidableEq, Repr
 
 def Val.truthy : Val → Bool
-  | .time t => t != 0
+  | .time _ => true          -- a timestamp of the running clock (`time.time()`) is never 0.0
   | .null => false
   | .other b _ => b
 
@@ -235,6 +235,11 @@ def newName (curx : Name) : Option Name → Name
   | none => norm curx          -- new_child_name = current_child_name
   | some n => norm n           -- normalize(new_child_namex)
 
+/-- what `_unpack_contents` of a read-only handle makes of a stored child: `writeable = not
+    self.is_readonly()`, so `rw_uri` stays empty and the node is created from the read cap alone -/
+def viewThrough (h : Handle) (n : Node C) : Node C :=
+  if h.readonly then { n with rw := none } else n
+
 /-- `DirectoryNode.move_child_to` after the read-only test and the normalization of both names -/
 def moveCore (now : Nat) (s : State Name C) (h : Handle) (cur : Name) (h2 : Handle)
     (new : Name) (ow : Overwrite) : State Name C × Res C :=
@@ -286,7 +291,7 @@ def step (s : State Name C) (now : Nat) : Op Name C → State Name C × Res C
   | .move h curx h2 newx ow => moveChild norm now s h curx h2 newx ow
   | .get h namex =>
     match lookup (norm namex) (s h.dir) with
-    | some (child, _) => (s, .node (some child))
+    | some (child, _) => (s, .node (some (viewThrough h child)))
     | none => (s, .err .noSuchChild)
   | .hasChild h namex => (s, .bool (lookup (norm namex) (s h.dir)).isSome)
   | .getMetadata h namex =>
